@@ -14,7 +14,7 @@ LEVEL = "other"
 ITEM_CAP = {"quick": 180, "thorough": 900}
 FUNCS = ["qlasskit.qcircuit.qcircuit.QCircuit.{append_circuit,__iadd__,__add__,repeat,copy,append,qft,iqft}", "qlasskit.qcircuit.qcircuitenhanced.QCircuitEnhanced.remove_identities"]
 BOUNDS = {
-    "quick": "append_circuit: 60 fixed-seed classical circuit pairs (B on 2-3 qubits appended onto A on 3-5 qubits) with the REMAP LIST SYMBOLIC (distinct in-range z3 Ints) and the basis state symbolic; 40 non-classical pairs with every injective remap enumerated (exact amplitudes); +/+=: 80 pairs; repeat: symbolic n in [0,4] on 40 circuits; copy: 40 circuits; remove_identities: all sequences of length <= 4 over 7 gate objects (repeated objects, barriers); qft/iqft: every injective qubit list of length <= 3 on 4 qubits",
+    "quick": "append_circuit: 60 fixed-seed classical circuit pairs (B on 2-3 qubits appended onto A on 3-5 qubits) with the REMAP LIST SYMBOLIC (distinct in-range z3 Ints) and the basis state symbolic; 40 non-classical pairs with every injective remap enumerated (exact amplitudes); +/+=: 80 pairs; repeat: symbolic n in [0,4] on 40 circuits; copy: 40 circuits; remove_identities: all sequences of length <= 4 over 11 gate objects (repeated objects, distinct objects of one gate, permuted wires, barriers); qft/iqft: every injective qubit list of length <= 3 on 4 qubits",
     "thorough": "3x the pair counts, remove_identities sequences of length <= 5, qft/iqft lists of length <= 4 on 5 qubits",
 }
 OUTSIDE = "circuits enumerated; symbolic remaps only for classical circuits; qft/iqft checked as inverse pair (not against the DFT matrix); n > 4 for repeat"
@@ -94,6 +94,12 @@ def make_items(tier, seed):
         nqb = rnd.choice([x for x in (2, 3, 4) if x <= nq])
         kinds = CLASSICAL if i % 2 else MIXED
         items.append({"ob": "add" if i % 4 < 2 else "iadd", "nqA": nq, "nqB": nqb, "A": circorp.random_circuit(rnd, nq, rnd.randint(0, 6), kinds), "B": circorp.random_circuit(rnd, nqb, rnd.randint(0, 6), kinds)})
+    rw = random.Random(515)
+    for i in range(12 * k):  # narrower left operand
+        nqa = rw.choice([1, 2, 3])
+        nqb = rw.choice([x for x in (2, 3, 4) if x > nqa])
+        kinds = CLASSICAL if i % 2 else MIXED
+        items.append({"ob": "add" if i % 3 else "iadd", "nqA": nqa, "nqB": nqb, "A": circorp.random_circuit(rw, nqa, rw.randint(1, 4), [x for x in kinds if nqa > 1 or x in ("x", "h", "z", "s", "t", "y")]), "B": circorp.random_circuit(rw, nqb, rw.randint(1, 5), kinds)})
     for i in range(40 * k):
         nq = rnd.choice([2, 3, 4])
         items.append({"ob": "repeat", "nqA": nq, "A": circorp.random_circuit(rnd, nq, rnd.randint(1, 5), CLASSICAL if i % 2 else MIXED)})
@@ -101,7 +107,7 @@ def make_items(tier, seed):
         nq = rnd.choice([2, 3, 4])
         items.append({"ob": "copy", "nqA": nq, "A": circorp.random_circuit(rnd, nq, rnd.randint(0, 6), MIXED), "vanilla": bool(i % 2)})
     L = 5 if tier == "thorough" else 4
-    for pre in range(7):
+    for pre in range(11):
         items.append({"ob": "remove_identities", "first": pre, "len": L})
     nqf, lf = (5, 4) if tier == "thorough" else (4, 3)
     for l in range(1, lf + 1):
@@ -110,7 +116,36 @@ def make_items(tier, seed):
     return items
 
 
+class MalformedResult(Exception):
+    pass
+
+
+def eq_query(result_gates, ref_gates, nq, xs):
+    """equal_unitaries_query, telling apart 'the reader does not model this gate' (Unsupported) from
+    'the composed circuit holds a gate that cannot be applied' (e.g. a phase gate that lost its
+    parameter): the latter is a finding, not a harness error"""
+    try:
+        return qamp.equal_unitaries_query(result_gates, ref_gates, nq, xs)
+    except qamp.Unsupported:
+        raise
+    except Exception as e:
+        try:
+            qamp.equal_unitaries_query(ref_gates, ref_gates, nq, xs)
+        except Exception:
+            raise e
+        bad = [(type(g).__name__, list(w), p) for g, w, p in result_gates if p is None and any(p2 is not None for g2, w2, p2 in ref_gates if type(g2) is type(g))]
+        raise MalformedResult("the result cannot be applied (%s: %s); gates without their parameter: %s" % (type(e).__name__, str(e)[:60], bad[:3]))
+
+
+
 def check_item(spec):
+    try:
+        return _check_item(spec)
+    except MalformedResult as e:
+        return {"status": "ok", "findings": [{"kind": "malformed-result", "what": "%s: %s" % (spec.get("ob"), e), "cex": {}, "replayed": True}], "nontrivial": True}
+
+
+def _check_item(spec):
     from qlasskit import QCircuit
 
     st = Stats()
@@ -126,7 +161,7 @@ def check_item(spec):
         A = circorp.build(spec["A"], spec["nqA"], "A")
         B = circorp.build(spec["B"], spec["nqB"], "B")
         fa, fb = fp(A), fp(B)
-        nq = spec["nqA"]
+        nq = max(spec["nqA"], spec["nqB"]) if ob in ("add", "iadd") else spec["nqA"]
         xs = [z3.Bool("x%d" % i) for i in range(nq)]
         if ob == "append-sym":
             qs = [z3.Int("r%d" % i) for i in range(spec["nqB"])]
@@ -200,7 +235,7 @@ def check_item(spec):
                 R.append_circuit(B, list(remap))
                 try:
                     ref_gates = list(A.gates) + [(g, [remap[i] for i in w], p) for g, w, p in B.gates]
-                    q, info = qamp.equal_unitaries_query(R.gates, ref_gates, nq, xs)
+                    q, info = eq_query(R.gates, ref_gates, nq, xs)
                 except qamp.Unsupported as e:
                     res.update(status="skip", note=str(e))
                     return st.into(res)
@@ -221,6 +256,11 @@ def check_item(spec):
                 R = copy.deepcopy(A)
                 R += B
         except Exception as e:
+            if spec["nqB"] > spec["nqA"]:
+                # a wider right operand is refused by the pinned tree; if a result is produced
+                # instead, it has to be the sequential composition on the wider register (below)
+                res["note"] = "wider right operand refused"
+                return st.into(res)
             finding("add-raises", "%s: %s" % (type(e).__name__, str(e)[:100]))
             return st.into(res)
         if fp(A) != fa or fp(B) != fb:
@@ -232,7 +272,7 @@ def check_item(spec):
                 r = boolq.simcirc(ref_gates, xs)
                 q = z3.Or(*[z3.Xor(a, b) for a, b in zip(l, r)])
             else:
-                q, info = qamp.equal_unitaries_query(R.gates, ref_gates, nq, xs)
+                q, info = eq_query(R.gates, ref_gates, nq, xs)
         except (qamp.Unsupported, boolq.Unsupported) as e:
             res.update(status="skip", note=str(e))
             return st.into(res)
@@ -295,7 +335,7 @@ def check_item(spec):
                 if classical:
                     q = z3.Or(*[z3.Xor(a, b) for a, b in zip(boolq.simcirc(R.gates, xs), boolq.simcirc(ref_gates, xs))])
                 else:
-                    q, info = qamp.equal_unitaries_query(R.gates, ref_gates, nq, xs)
+                    q, info = eq_query(R.gates, ref_gates, nq, xs)
             except (qamp.Unsupported, boolq.Unsupported) as e:
                 s.pop()
                 res.update(status="skip", note=str(e))
@@ -322,7 +362,7 @@ def check_item(spec):
         if fp(A) != fa:
             finding("operand-modified", "copy modified its source")
         try:
-            q, info = qamp.equal_unitaries_query(C.gates, A.gates, nq, xs)
+            q, info = eq_query(C.gates, A.gates, nq, xs)
         except qamp.Unsupported as e:
             res.update(status="skip", note=str(e))
             return st.into(res)
@@ -343,7 +383,8 @@ def check_item(spec):
 
         nq = 3
         xs = [z3.Bool("x%d" % i) for i in range(nq)]
-        pool = [(gates.X(), [0]), (gates.X(), [1]), (gates.CX(), [0, 1]), (gates.CX(), [1, 2]), (gates.CCX(), [0, 1, 2]), (gates.Barrier(), []), (gates.X(), [0])]
+        # repeated objects, distinct objects of the same gate, the same gate on permuted wires
+        pool = [(gates.X(), [0]), (gates.X(), [1]), (gates.CX(), [0, 1]), (gates.CX(), [1, 2]), (gates.CCX(), [0, 1, 2]), (gates.Barrier(), []), (gates.X(), [0]), (gates.CX(), [1, 0]), (gates.CCX(), [0, 2, 1]), (gates.CCX(), [1, 0, 2]), (gates.CX(), [0, 1])]
         applied = [(g, w, None) for g, w in pool]  # the very same tuple objects are re-used, as the compiler's uncompute does
         n = 0
         bad = []
